@@ -719,7 +719,7 @@ def linspace(start, stop, num, decimals=18):
     """
     start = float(start)
     stop = float(stop)
-    if abs(start - stop) <= 10e-8:
+    if start == stop:
         return [start]
     num = int(num)
     if num > 1:
